@@ -103,9 +103,6 @@ Section KSingle.
 End KSingle.
 
 (* ------------------------------------------------------------------ per-hook facts *)
-Definition pass_empty (h : hook) : bool :=
-  match h with HPass [] _ => true | _ => false end.
-
 Lemma idle_none h : idle h = true <-> current_decision h = None.
 Proof. unfold idle. destruct (current_decision h); cbn; split; congruence. Qed.
 
@@ -143,28 +140,25 @@ Proof.
     apply all_empty_count. apply negb_true_iff. exact Hc.
 Qed.
 
-(* after autonomous_decision the hook holds a decision whose flag is the return value --
-   except the passthrough hook with nothing pending, which stays as it was *)
-Lemma auto_decides h f ds h1 nt rest :
-  auto h f ds = Ok (h1, nt, rest) ->
-  (pass_empty h = false /\ current_decision h1 = Some nt) \/ (pass_empty h = true /\ h1 = h).
+(* after autonomous_decision the hook holds a decision whose flag is the return value (since
+   fix 3c81bfcb4b9 this also holds for the passthrough hook with nothing pending) *)
+Lemma auto_decided h f ds h1 nt rest :
+  auto h f ds = Ok (h1, nt, rest) -> current_decision h1 = Some nt.
 Proof.
   destruct h; cbn [auto]; intro H.
-  - inv_bind H as [[[rel q'] ds'] nt']. inversion H; subst. left. split; auto.
+  - inv_bind H as [[[rel q'] ds'] nt']. inversion H; subst.
     apply total_prefix in E. destruct E as (_ & -> & _). reflexivity.
-  - inv_bind H as [[[rel q'] ds'] nt']. inversion H; subst. left. split; auto.
+  - inv_bind H as [[[rel q'] ds'] nt']. inversion H; subst.
     apply noorder_merge in E. destruct E as (_ & -> & _). reflexivity.
-  - inv_bind H as [[[rel q'] ds'] nt']. inversion H; subst. left. split; auto.
+  - inv_bind H as [[[rel q'] ds'] nt']. inversion H; subst.
     apply keyed_total_per_key in E. destruct E as (_ & -> & _). reflexivity.
-  - inv_bind H as [[[rel q'] ds'] nt']. inversion H; subst. left. split; auto.
+  - inv_bind H as [[[rel q'] ds'] nt']. inversion H; subst.
     apply keyed_noorder_per_key in E. destruct E as (_ & -> & _). reflexivity.
-  - inv_bind H as [[[[x is_new] sk] q'] ds']. inversion H; subst. left. split; auto.
-  - unfold decide_pass in H. destruct q as [|a q].
-    + cbn in H. inversion H; subst. right. split; reflexivity.
-    + left. split; [reflexivity|]. destruct (rev (a :: q)) eqn:Er.
-      * exfalso. apply (f_equal (@length N)) in Er. rewrite rev_length in Er. discriminate.
-      * inversion H; subst. reflexivity.
-  - inv_bind H as [[[[rel q'] last'] ds'] nt']. inversion H; subst. left. split; auto.
+  - inv_bind H as [[[[x is_new] sk] q'] ds']. inversion H; subst. reflexivity.
+  - destruct (decide_pass q) as [[x|] q'].
+    + inversion H; subst. reflexivity.
+    + destruct last; inversion H; subst. reflexivity.
+  - inv_bind H as [[[[rel q'] last'] ds'] nt']. inversion H; subst.
     apply ksingle_per_key in E. destruct E as (_ & -> & _). reflexivity.
 Qed.
 
@@ -172,7 +166,7 @@ Lemma release_flag h h2 out flag :
   release h = Ok (h2, out, flag) -> current_decision h = Some flag.
 Proof.
   unfold release. destruct (current_decision h) as [b|]; [|discriminate].
-  destruct h as [q tr|q tr|m tr|m tr|q tr last|q tr|m tr last]; destruct tr as [t|];
+  destruct h as [q tr|q tr|m tr|m tr|q tr last|q tr last|m tr last]; destruct tr as [t|];
     try discriminate; try (destruct t); intro H; inversion H; reflexivity.
 Qed.
 
@@ -186,20 +180,6 @@ Definition pend (l : list hook) : nat := length (filter undecided l).
 
 Lemma undecided_none h : undecided h = true <-> current_decision h = None.
 Proof. apply idle_none. Qed.
-
-(* an Ok second pass never met an undecided empty passthrough hook *)
-Lemma pass2_ok_no_pe : forall l made rc ds r,
-  pass2 l made rc ds = Ok r ->
-  forall h, In h l -> current_decision h = None -> pass_empty h = false.
-Proof.
-  induction l as [|h0 l IH]; intros made rc ds r H h Hin Hn; [destruct Hin|].
-  cbn [pass2] in H. inv_bind H as [[[h1 made'] rc'] ds']. inv_bind H as [[h2 out] flag].
-  inv_bind H as [[hs'' outs] ds''].
-  destruct Hin as [->|Hin]; [|eapply IH; eauto].
-  rewrite Hn in E. inv_bind E as [[h1' nt] ds1]. inv_bind E as rc1. inversion E; subst; clear E.
-  apply auto_decides in E2. destruct E2 as [[Hp _]|[Hp ->]]; [exact Hp|].
-  rewrite (release_undecided_panics _ Hn) in E0. discriminate.
-Qed.
 
 Lemma pend_cons h l : pend (h :: l) = (if undecided h then 1 else 0) + pend l.
 Proof. unfold pend. cbn. destruct (undecided h); reflexivity. Qed.
@@ -227,8 +207,7 @@ Proof.
     rewrite Hu in *. cbn [negb andb] in E.
     inv_bind E as [[h1' nt] ds1]. inv_bind E as rc1. inversion E; subst; clear E.
     assert (Hc : can_nontrivial h = true) by (apply Hcan; [left; reflexivity|exact Ed]).
-    pose proof (auto_decides _ _ _ _ _ _ E2) as [[_ Hd]|[Hpe _]].
-    2:{ destruct h; try discriminate. destruct q; discriminate. }
+    pose proof (auto_decided _ _ _ _ _ _ E2) as Hd.
     apply release_flag in E0. rewrite Hd in E0. injection E0 as <-.
     destruct made'.
     + reflexivity.
@@ -278,19 +257,16 @@ Theorem run_hooks_releases_new hs ds hs' outs rest :
 Proof.
   unfold run_hooks. intros H Hidle Hex. inv_bind H as [[[hs1 made] rc] ds1].
   pose proof (pass1_idle _ _ _ _ _ _ _ _ E Hidle) as (-> & Hrc & HF).
-  pose proof (pass2_ok_no_pe _ _ _ _ _ H) as Hnope.
   (* shape of every hook after the first pass *)
   assert (Hshape : forall h h1, P1rel h h1 -> idle h = true -> In h1 hs1 ->
             (can_nontrivial h = true /\ h1 = h /\ undecided h1 = true)
             \/ (can_nontrivial h = false /\ undecided h1 = false)).
   { intros h h1 [[Hc ->]|[Hc (d & nt & d' & Ha)]] Hi Hin.
     - left. repeat split; auto.
-    - right. split; auto. apply auto_decides in Ha. destruct Ha as [[_ Hd]|[Hpe ->]].
-      + unfold undecided. rewrite Hd. reflexivity.
-      + exfalso. apply idle_none in Hi. specialize (Hnope _ Hin Hi). congruence. }
+    - right. split; auto. apply auto_decided in Ha. unfold undecided. rewrite Ha. reflexivity. }
   assert (Hall : pend hs1 = count_can hs
                  /\ (forall h1, In h1 hs1 -> current_decision h1 = None -> can_nontrivial h1 = true)).
-  { clear H Hrc E Hnope Hex. revert Hidle Hshape. induction HF as [|h h1 l l1 HR HF IH]; intros Hidle Hshape.
+  { clear H Hrc E Hex. revert Hidle Hshape. induction HF as [|h h1 l l1 HR HF IH]; intros Hidle Hshape.
     - split; [reflexivity|intros ? []].
     - cbn [forallb] in Hidle. apply andb_true_iff in Hidle. destruct Hidle as [Hi Hidle].
       destruct IH as [IH1 IH2]; auto.
